@@ -24,7 +24,7 @@ fn dec(t: &[String]) -> Option<C> {
     let comp = if n()? != 0 { Some(n()? as u32) } else { None };
     Some(C { tmp, n: nn, c, comp, fail: n()?, fail_at: n()? as usize, consume: n()? as usize, order: n()?, obs_at: n()? as usize, border: n().unwrap_or(0), heavy: n().unwrap_or(0) as usize })
 }
-fn valid(c: &C) -> bool { c.n.div_ceil(c.c.max(1)) <= 150 && c.n * c.heavy <= 64 << 20 && c.obs_at < c.n.max(1) && (c.fail != 1 || c.obs_at < c.fail_at) }
+fn valid(c: &C) -> bool { c.n.div_ceil(c.c.max(1)) <= 700 && c.n * c.heavy <= 64 << 20 && c.obs_at < c.n.max(1) && (c.fail != 1 || c.obs_at < c.fail_at) }
 
 fn listing(d: &Path) -> BTreeSet<(String, bool)> {
     let mut s = BTreeSet::new();
@@ -218,6 +218,12 @@ fn gen(rng: &mut Rng, tier: Tier) -> Vec<Case> {
         let c = C { tmp: (i % 2) as u64, n: 4, c: 2, comp: None, fail: 4, fail_at: 0, consume: 0, order: 0, obs_at: 0, border: rng.below(24), heavy: 0 };
         out.push(Case::new("build-fails", enc(&c)));
     }
+    // many runs: more than 2^8 of them exist when the snapshot is taken (a fan-in limit or an intermediate merge pass that
+    // puts its output somewhere else shows only then)
+    for (i, (n, c_size)) in [(300usize, 1usize), (640, 2)].into_iter().enumerate() {
+        let c = C { tmp: 1, n, c: c_size, comp: if i == 1 { Some(1) } else { None }, fail: 0, fail_at: 0, consume: if i == 0 { n + 5 } else { 3 }, order: i as u64, obs_at: n - 1, border: rng.below(24), heavy: 0 };
+        if valid(&c) { out.push(Case::new("many-runs", enc(&c))); }
+    }
     let n_heavy = match tier { Tier::Quick => 3, Tier::Thorough => 16 };
     for i in 0..n_heavy {
         let heavy = *rng.pick(&[512usize, 2048, 3000]);
@@ -233,7 +239,7 @@ fn gen(rng: &mut Rng, tier: Tier) -> Vec<Case> {
 pub fn prop() -> PropDef {
     PropDef {
         id: "C15",
-        rule: "corpus, then lifetime scripts run in a child process whose TMPDIR is a fresh directory: explicit or default tmp dir (both pre-populated with a file and a sub-directory), the builder's four setters called in every order, inputs of c+1..8c records for chunk sizes c in {1,2,3,10,50}, with or without compression; the input iterator snapshots the directory (and /proc/self/fd) after at least one chunk exists; then either a normal sort followed by draining / dropping after k items / never consuming, with the iterator dropped before or after the sorter, or a panic raised by the input iterator at item j, a panic raised by the comparator at its m-th call, or sort_by returning an error (descriptor limit lowered mid-sort); listing compared before build, after build, during the sort and after the drops; /proc/self/fd compared before build, during the sort and when sort_by has returned; a few sorts of records owning heap data (0.5-3 KiB strings, runs of 1-12 MiB); a build() that fails (usize::MAX worker threads under a 3 GiB address-space limit). Non-trivial: the during-snapshot was taken with >= 1 chunk created. Distinct = distinct input token sequence.",
+        rule: "corpus, then lifetime scripts run in a child process whose TMPDIR is a fresh directory: explicit or default tmp dir (both pre-populated with a file and a sub-directory), the builder's four setters called in every order, inputs of c+1..8c records for chunk sizes c in {1,2,3,10,50}, with or without compression; the input iterator snapshots the directory (and /proc/self/fd) after at least one chunk exists; then either a normal sort followed by draining / dropping after k items / never consuming, with the iterator dropped before or after the sorter, or a panic raised by the input iterator at item j, a panic raised by the comparator at its m-th call, or sort_by returning an error (descriptor limit lowered mid-sort); listing compared before build, after build, during the sort and after the drops; /proc/self/fd compared before build, during the sort and when sort_by has returned; a few sorts of records owning heap data (0.5-3 KiB strings, runs of 1-12 MiB); a build() that fails (usize::MAX worker threads under a 3 GiB address-space limit); two sorts that have more than 2^8 runs open when the snapshot is taken. Non-trivial: the during-snapshot was taken with >= 1 chunk created. Distinct = distinct input token sequence.",
         observable: "entries created under the configured directory by build(), during sort_by (top level, inside the temporary directory), after the drops (new and missing entries), entries created under the other temporary directory, descriptors opened during the sort on files (linked or already unlinked) outside the configured directory, result of sort_by",
         gen, exec, shrink, child: Some(child),
     }
